@@ -199,7 +199,7 @@ def plan(tier):
             ([Config(l, z, 'D') for l in langs], [('prng', 1), ('prng', 2), 'first', 'alt'], 0, 1),
         ]
     from mc import plans
-    return plans.thorough(LANGS, 'medium')
+    return plans.thorough(LANGS, 'heavy')
 
 
 def run(tier, seed, jobs):
